@@ -1,5 +1,8 @@
 import TabulaModel.Util
 import TabulaModel.Model.Export
+import TabulaModel.Model.ExportApi
+import TabulaModel.Model.ExportJson
+import TabulaModel.Model.Collection
 /-
 Line-protocol handler for C14.  Wire format (one op per line, fields separated by one space):
 
@@ -27,6 +30,29 @@ Line-protocol handler for C14.  Wire format (one op per line, fields separated b
   c14.meta2map <chunk>   -> sorted key:val dump of chunkMetadataToMap
   c14.flatten <tokens>   -> sorted key:val dump of flattenMetadata(map,""); tokens ','-joined, prefix
                             notation: o<n> then n × (<keyhex>, value) | s<hex> | i<int> | b0 | b1 | l<hex>+…
+  c14.cfg <name>         -> the library configuration of that name, in the `g=` notation
+                            (default|jsonl|csv|tsv|tojson|vectordb)
+  c14.spec g c           -> the rows of c14.rows computed from the SPECIFICATION (`cellSpec` over the
+                            chunks' own fields), not from the exporter model
+  c14.batchrun g size fail c -> `<result>|num:start:end:count,…` of (*BatchExporter).Export whose callback
+                            fails on its fail-th invocation (fail = -1: never); result = ok | cberr:<n> | experr:<start> | size0
+  c14.calls g k=<calls> c -> `<results>|<records>` of a StreamExporter after the call sequence; calls ','-joined:
+                            w<i>:<index> = WriteChunk(chunks[i], index), x = Close(); results = one 0/1 per call
+  c14.vdb e=<embs> <classhex> c -> `P <pinecone> C <chroma> W <weaviate> R <prepare>`; embs '/'-joined: n (nil slice) |
+                            v<tok>,<tok>… (v alone = empty slice), tok = the JSON text of the float
+  c14.tostring g c       -> "ok <hex>" | "err": (*Exporter).ExportToString, every format (JSON text through the
+                            assumed encoding/json writer of Model/Json.lean, CSV with json.Marshal modelled)
+  c14.short <name> c     -> the same for ToJSON | ToJSONL | ToCSV | ToTSV
+  c14.streamtext g k=<calls> c -> hex of the bytes a StreamExporter has written after the call sequence
+  c14.vdbtext e=<embs> <classhex> c -> `P <hex> C <hex> W <hex>`: the three vector-database texts
+  c14.quote <hex>        -> hex of the JSON string literal encoding/json writes for these bytes (any bytes)
+  c14.fmtobj <tokens>    -> hex of formatValue of a nested map (json.Marshal), tokens as in c14.flatten
+  c14.jsonread <hex>     -> "err" | dump of the value a standard JSON reader returns:
+                            z | t | f | n<numbertext> | s<hex> | [v,v…] | {<keyhex>:v,…} (members in text order)
+  c14.jsonlread <hex>    -> "err" | the dumps of the lines, ';'-joined ("none" for no line)
+  c14.coll f=<chain> <idhex> <i> c -> the accessors of the collection the chain returns (no search op in the chain):
+                            count|first|last|GetByIndex(i)|GetByID(id)|sections|ps:pe|tokens|words|stats
+                            chunk = <idhex>/<texthex> or nil; stats = 13 comma-separated numbers
 -/
 namespace Tabula.C14H
 open Tabula Tabula.Export Tabula.Csv
@@ -187,6 +213,218 @@ def parseChain (s : String) : Option (List FilterOp) :=
   let body := (s.drop 2).toString
   if body == "" then some [] else (body.splitOn "+").mapM parseOp
 
+/-! ### part 2: configurations, specification rows, batch runs, stream calls, vector databases -/
+
+def dumpFields (f : Option (List Str)) : String :=
+  match f with
+  | none => "~"
+  | some l => "=" ++ ",".intercalate (l.map hexS)
+
+def formatName : Format → String
+  | .jsonl => "jsonl" | .json => "json" | .csv => "csv" | .tsv => "tsv" | .other => "other"
+
+def dumpConfig (c : Config) : String :=
+  "g=" ++ ";".intercalate [formatName c.format, b01 c.includeMetadata, dumpFields c.metadataFields, b01 c.includeText,
+    b01 c.includeEmbeddings, b01 c.flattenMetadata, toString c.csvDelimiter, b01 c.includeHeader, b01 c.prettyPrint,
+    hexS c.textColumnName, hexS c.chunkIDColumnName]
+
+def configByName (n : String) : Option Config :=
+  if n == "default" then some defaultExportConfig
+  else if n == "jsonl" then some jsonlExportConfig
+  else if n == "csv" then some csvExportConfig
+  else if n == "tsv" then some tsvExportConfig
+  else if n == "tojson" then some toJSONConfig
+  else if n == "vectordb" then some vectorDBExportConfig
+  else none
+
+def specRows (cfg : Config) (cs : List Chunk) : List (List Str) :=
+  let cols := collectCSVColumns cfg cs
+  (if cfg.includeHeader then [cols] else []) ++ cs.map (fun c => cols.map (cellSpec cfg c))
+
+/-- `ExportToString` of a batch, its text dropped (the op compares the control flow of the batch
+loop; the `Data` texts are compared by c14.tostring / c14.export on the first batch) -/
+def exportSucceeds (cfg : Config) (items : List Chunk) : Option Unit :=
+  (exportToString cfg items).map (fun _ => ())
+
+def dumpBatchResult : BatchResult → String
+  | .ok => "ok"
+  | .callbackErr n => s!"cberr:{n}"
+  | .exportErr s => s!"experr:{s}"
+
+def dumpBatchRun (r : List (Batch Chunk × Unit) × BatchResult) : String :=
+  dumpBatchResult r.2 ++ "|" ++
+    (if r.1.isEmpty then "none" else
+      ",".intercalate (r.1.map fun p => s!"{p.1.batchNumber}:{p.1.startIndex}:{p.1.endIndex}:{p.1.chunkCount}"))
+
+def parseCall (cs : List Chunk) (s : String) : Option StreamCall :=
+  if s == "x" then some .close
+  else if s.startsWith "w" then
+    match ((s.drop 1).toString).splitOn ":" with
+    | [i, idx] => do
+      let i ← i.toNat?; let idx ← idx.toInt?
+      let c ← cs[i]?
+      pure (.write c idx)
+    | _ => none
+  else none
+
+def parseCalls (cs : List Chunk) (s : String) : Option (List StreamCall) :=
+  if !s.startsWith "k=" then none else
+  let body := (s.drop 2).toString
+  if body == "" then some [] else (body.splitOn ",").mapM (parseCall cs)
+
+/-- embedding components travel as the JSON text of the float (byte strings in the model) -/
+def parseEmb (s : String) : Option (Emb Str) :=
+  if s == "n" then some none
+  else if s == "v" then some (some [])
+  else if s.startsWith "v" then some (some (((s.drop 1).toString.splitOn ",").map (fun t => toStr t.toUTF8.toList)))
+  else none
+
+def parseEmbs (s : String) : Option (List (Emb Str)) :=
+  if !s.startsWith "e=" then none else
+  let body := (s.drop 2).toString
+  if body == "" then some [] else (body.splitOn "/").mapM parseEmb
+
+def strOfStr (s : Str) : String := String.ofList (s.map Char.ofNat)
+
+def dumpToks (l : List Str) : String := if l.isEmpty then "~" else "+".intercalate (l.map strOfStr)
+
+def dumpEmb : Emb Str → String
+  | none => "n"
+  | some l => "v" ++ ",".intercalate (l.map strOfStr)
+
+def dumpList (l : List String) : String := if l.isEmpty then "none" else ";".intercalate l
+
+def dumpPinecone (rs : List (PineconeRecord Str)) : String :=
+  dumpList (rs.map fun r => hexS r.id ++ "|" ++ dumpToks r.values ++ "|" ++ dumpMap r.metadata)
+
+def dumpChroma (r : ChromaRecord Str) : String :=
+  dumpPath r.ids ++ "|" ++ dumpPath r.documents ++ "|" ++
+    (match r.embeddings with | none => "~" | some es => "/".intercalate (es.map dumpEmb)) ++ "|" ++
+    dumpList (r.metadatas.map dumpMap)
+
+def dumpWeaviate (os : List (WeaviateObject Str)) : String :=
+  dumpList (os.map fun o => hexS o.cls ++ "|" ++ hexS o.id ++ "|" ++ dumpMap o.properties ++ "|" ++ dumpToks o.vector)
+
+def dumpPrepared (rs : List EmbeddingRecord) : String :=
+  dumpList (rs.map fun r => hexS r.id ++ "|" ++ hexS r.text ++ "|" ++ dumpMap r.metadata)
+
+/-! ### part 4: collection accessors -/
+
+def dumpChunkRef : Option Chunk → String
+  | none => "nil"
+  | some c => hexS c.id ++ "/" ++ hexS c.text
+
+def dumpStats (s : Stats) : String :=
+  ",".intercalate [toString s.totalChunks, toString s.totalTokens, toString s.totalWords, toString s.totalChars,
+    toString s.avgTokens, toString s.minTokens, toString s.maxTokens, toString s.withTables, toString s.withLists,
+    toString s.withImages, toString s.uniqueSections, toString s.pageStart, toString s.pageEnd]
+
+def handle4 (op : String) (args : List String) : String :=
+  match op, args with
+  | "c14.coll", [f, id, i, c] =>
+    (match parseChain f, unhexS id, i.toInt?, parseChunks c with
+     | some ops, some id, some i, some cs =>
+       let env : StrEnv := { toLower := fun s => s, eqFold := asciiEqFold }
+       let r := applyChain env ops cs
+       "|".intercalate [toString (collCount r), dumpChunkRef (collFirst r), dumpChunkRef (collLast r),
+         dumpChunkRef (collGetByIndex r i), dumpChunkRef (collGetByID id r), dumpPath (collSections r),
+         toString (collPageRange r).1 ++ ":" ++ toString (collPageRange r).2,
+         toString (collTotalTokens r 0), toString (collTotalWords r 0), dumpStats (collStatistics r)]
+     | _, _, _, _ => "bad-op")
+  | _, _ => "bad-op"
+
+/-! ### part 3: text level of the JSON formats -/
+
+open Tabula.Json in
+partial def dumpJ : J → String
+  | .null => "z"
+  | .bool b => if b then "t" else "f"
+  | .num raw => "n" ++ strOfStr raw
+  | .str s => "s" ++ hexS s
+  | .arr l => "[" ++ ",".intercalate (l.map dumpJ) ++ "]"
+  | .obj ms => "{" ++ ",".intercalate (ms.map fun (k, v) => hexS k ++ ":" ++ dumpJ v) ++ "}"
+
+def okHex (o : Option Str) : String :=
+  match o with
+  | some t => "ok " ++ hexS t
+  | none => "err"
+
+def handle3 (op : String) (args : List String) : String :=
+  match op, args with
+  | "c14.tostring", [g, c] =>
+    (match parseConfig g, parseChunks c with
+     | some cfg, some cs => okHex (exportToString cfg cs)
+     | _, _ => "bad-op")
+  | "c14.short", [n, c] =>
+    (match parseChunks c with
+     | some cs =>
+       if n == "ToJSON" then okHex (toJSON cs) else if n == "ToJSONL" then okHex (toJSONL cs)
+       else if n == "ToCSV" then okHex (toCSV cs) else if n == "ToTSV" then okHex (toTSV cs) else "bad-op"
+     | none => "bad-op")
+  | "c14.streamtext", [g, k, c] =>
+    (match parseConfig g, parseChunks c with
+     | some cfg, some cs =>
+       (match parseCalls cs k with
+        | some calls => hexS (streamText (streamRun cfg calls ⟨[], []⟩).written)
+        | none => "bad-op")
+     | _, _ => "bad-op")
+  | "c14.vdbtext", [e, cls, c] =>
+    (match parseEmbs e, unhexS cls, parseChunks c with
+     | some embs, some cls, some cs =>
+       "P " ++ hexS (pineconeText cs embs) ++ " C " ++ hexS (chromaText cs embs) ++ " W " ++ hexS (weaviateText cls cs embs)
+     | _, _, _ => "bad-op")
+  | "c14.quote", [h] =>
+    (match unhexS h with
+     | some s => hexS (Tabula.Json.quote s)
+     | none => "bad-op")
+  | "c14.fmtobj", [t] =>
+    (match parseTok (t.splitOn ",") with
+     | some (.obj kvs, []) => hexS (formatValue goMarshal (.obj kvs))
+     | _ => "bad-op")
+  | "c14.jsonread", [h] =>
+    (match unhexS h with
+     | some s => (match Tabula.Json.jsonRead s with | some v => dumpJ v | none => "err")
+     | none => "bad-op")
+  | "c14.jsonlread", [h] =>
+    (match unhexS h with
+     | some s => (match Tabula.Json.jsonlRead s with | some vs => dumpList (vs.map dumpJ) | none => "err")
+     | none => "bad-op")
+  | _, _ => handle4 op args
+
+def handle2 (op : String) (args : List String) : String :=
+  match op, args with
+  | "c14.cfg", [n] =>
+    (match configByName n with
+     | some c => dumpConfig c
+     | none => "bad-op")
+  | "c14.spec", [g, c] =>
+    (match parseConfig g, parseChunks c with
+     | some cfg, some cs => dumpRows (specRows cfg cs)
+     | _, _ => "bad-op")
+  | "c14.batchrun", [g, size, fail, c] =>
+    (match parseConfig g, size.toNat?, fail.toInt?, parseChunks c with
+     | some cfg, some size, some fail, some cs =>
+       (match batchExportRun size (exportSucceeds cfg) (fun b _ => decide ((b.batchNumber : Int) ≠ fail)) cs with
+        | none => "size0"
+        | some r => dumpBatchRun r)
+     | _, _, _, _ => "bad-op")
+  | "c14.calls", [g, k, c] =>
+    (match parseConfig g, parseChunks c with
+     | some cfg, some cs =>
+       (match parseCalls cs k with
+        | some calls =>
+          let st := streamRun cfg calls ⟨[], []⟩
+          String.join (st.results.map b01) ++ "|" ++ dumpRecords st.written
+        | none => "bad-op")
+     | _, _ => "bad-op")
+  | "c14.vdb", [e, cls, c] =>
+    (match parseEmbs e, unhexS cls, parseChunks c with
+     | some embs, some cls, some cs =>
+       "P " ++ dumpPinecone (pineconeVectors cs embs) ++ " C " ++ dumpChroma (chromaRecord cs embs) ++
+       " W " ++ dumpWeaviate (weaviateObjects cls cs embs) ++ " R " ++ dumpPrepared (prepareForVectorDB cs)
+     | _, _, _ => "bad-op")
+  | _, _ => handle3 op args
+
 def handle (op : String) (args : List String) : String :=
   match op, args with
   | "c14.csvcols", [g, c] =>
@@ -256,6 +494,6 @@ def handle (op : String) (args : List String) : String :=
     (match parseTok (t.splitOn ",") with
      | some (.obj kvs, []) => dumpMap (flattenMetadata kvs [])
      | _ => "bad-op")
-  | _, _ => "bad-op"
+  | _, _ => handle2 op args
 
 end Tabula.C14H
